@@ -195,6 +195,8 @@ Apply(cx, st, cmd) ==
   CASE cmd.c = "construct"   -> Construct(cx, st, cmd.bits)
     [] cmd.c = "bind"        -> Bind(cx, st, cmd.port, cmd.event, cmd.client, TRUE)
     [] cmd.c = "unbind"      -> Bind(cx, st, cmd.port, cmd.event, cmd.client, FALSE)
+    \* <prefix>::ConnectPorts(boundary port, the user's own port object): binds every user-side event of that port at once
+    [] cmd.c = "connect"     -> Bind(cx, st, cmd.port, "*", cmd.client, TRUE)
     [] cmd.c = "unbind-comp" -> UnbindComp(cx, st, cmd.port, cmd.event)
     [] cmd.c = "register"    -> Register(cx, st, cmd.id)
     [] cmd.c = "final"       -> Final(cx, st)
